@@ -478,6 +478,13 @@ def apply_obj_op(obj, kind, op, fx, D_of):
     if op["m"] == "birth_range=":
         obj.birth_range = (float(op["val"][0]), float(op["val"][1]))
         return None, []
+    if op["m"] == "kparams[]=":
+        # the user edits the public parameter dict of *this* imager in place
+        obj.kernel_params["sigma"] = op["val"]
+        return None, []
+    if op["m"] == "wparams[]=":
+        obj.weight_params["n"] = float(op["val"])
+        return None, []
     if op["m"] == "pers_range=":
         obj.pers_range = (float(op["val"][0]), float(op["val"][1]))
         return None, []
@@ -506,6 +513,9 @@ def build_obj_call(spec, fx, objects, D):
 
     def ctor():
         if kind == "imager":
+            if spec["ctor"] == "default":
+                # constructed the way the documentation does: everything but the pixel size left at its default
+                return mods()["persim.images"].PersistenceImager(pixel_size=0.25)
             return make_imager(fx["imagers"][spec["ctor"]])
         return make_landscaper(spec["ctor"])
 
@@ -542,7 +552,8 @@ def build_obj_call(spec, fx, objects, D):
 def state_and(res, obj, kind):
     if kind == "imager":
         st = {"birth_range": [float(x) for x in obj.birth_range], "pers_range": [float(x) for x in obj.pers_range],
-              "pixel_size": float(obj.pixel_size), "resolution": [int(x) for x in obj.resolution]}
+              "pixel_size": float(obj.pixel_size), "resolution": [int(x) for x in obj.resolution],
+              "weight_params": canon(dict(obj.weight_params)), "kernel_params": canon(dict(obj.kernel_params))}
     else:
         st = {"start": obj.start, "stop": obj.stop, "num_steps": obj.num_steps}
     if res is obj:
